@@ -2,6 +2,7 @@
 Executable statement of C05, evaluated by the driver on the *implementation's* output.
 -/
 import HtmlVerif.Spec.Flat
+import HtmlVerif.Spec.WsSites
 
 namespace HtmlVerif.Holds
 open HtmlVerif
@@ -29,8 +30,52 @@ mutual
     | .cons h t => adjPairs cfg h ++ adjPairsKids cfg t
 end
 
-def holdsC05Tag (cfg : Cfg) (t : Node) (i : Nat) (out : Str) : Bool :=
+/-! ### clause 4 on the real output
+
+The real output is read as the model's non-whitespace pieces (opening tags, closing tags, content), in order,
+separated by gaps made only of `eol` and two-space indentation units; the gaps become the whitespace pieces and
+`wsSitesOk` is evaluated on the result.  If the output cannot be read that way, or a content piece could be
+confused with a gap (it starts with a space or with eol's first character), the answer is `none` (not decided here;
+the exact-string correspondence still applies). -/
+
+def stripGap (eol r : Str) : Nat → Str → Str → Option (Str × Str)
+  | 0, _, _ => none
+  | fuel + 1, gap, rest =>
+    if r.isPrefixOf rest then some (gap, rest)
+    else if !eol.isEmpty && eol.isPrefixOf rest then stripGap eol r fuel (gap ++ eol) (rest.drop eol.length)
+    else if [' ', ' '].isPrefixOf rest then stripGap eol r fuel (gap ++ [' ', ' ']) (rest.drop 2)
+    else none
+
+def contentConfusable (eol : Str) (r : Str) : Bool :=
+  match r with
+  | [] => false
+  | c :: _ => c == ' ' || eol.head? == some c
+
+def alignPieces (cfg : Cfg) (eol : Str) : List Piece → Str → List Piece → Option (List Piece)
+  | [], rest, acc => if rest.isEmpty then some acc.reverse else none
+  | p :: ps, rest, acc =>
+    if p.isWs then alignPieces cfg eol ps rest acc
+    else if (p.realize cfg).isEmpty then alignPieces cfg eol ps rest acc   -- empty content occupies no position
+    else
+      let r := p.realize cfg
+      let confus := match p with
+        | .txt _ => contentConfusable eol r
+        | .raw _ => contentConfusable eol r
+        | _ => false
+      if confus then none
+      else match stripGap eol r (rest.length + 2) [] rest with
+        | none => none
+        | some (gap, rest') =>
+          alignPieces cfg eol ps (rest'.drop r.length) (p :: (if gap.isEmpty then acc else .ws gap :: acc))
+
+/-- `some true/false`: clause 4 decided on the real output; `none`: not decidable here -/
+def wsSitesOnOutput (cfg : Cfg) (ps : List Piece) (eol out : Str) : Option Bool :=
+  -- the caller's own leading indentation is exempt: start scanning in the justified state
+  (alignPieces cfg eol ps out []).map (wsSitesOk true)
+
+def holdsC05Tag (cfg : Cfg) (t : Node) (i : Nat) (e : Str) (out : Str) : Bool :=
   (if t.noWs then out == indentStr i ++ t.flat cfg else true)
+  && (wsSitesOnOutput cfg (t.pieces cfg i e) e out).getD true
   && (descs cfg t).all (fun (d, esc) => !d.noWs || isInfix (d.flatIn cfg esc) out)
   && (adjPairs cfg t).all (fun (a, b, esc) =>
         !(a.noWs && b.noWs) || isInfix (a.flatIn cfg esc ++ b.flatIn cfg esc) out)
